@@ -31,7 +31,7 @@ const (
 )
 
 var (
-	sources = []string{"authz", "hdr", "cookie", "query", "hdrquery"} //nolint:gochecknoglobals
+	sources = []string{"authz", "hdr", "cookie", "query", "hdrquery", "body"}                               //nolint:gochecknoglobals
 	kinds   = map[string]string{"jwt": "jwks", "generic": "identity", "oauth2_introspection": "introspect"} //nolint:gochecknoglobals
 )
 
@@ -143,6 +143,8 @@ func srcConfig(src string, p int) []any {
 		return []any{map[string]any{"query_parameter": fmt.Sprintf("cred_p%d", p)}}
 	case "hdrquery":
 		return []any{hdr, map[string]any{"query_parameter": fmt.Sprintf("cred_p%d", p)}}
+	case "body":
+		return []any{map[string]any{"body_parameter": fmt.Sprintf("cred_p%d", p)}}
 	default:
 		return []any{map[string]any{"header": "Authorization", "scheme": "Bearer"}}
 	}
@@ -445,6 +447,8 @@ func (b *Bed) Request(c Case) (client.Request, error) {
 
 	r := client.Request{Method: http.MethodGet, Path: prefix + "/v"}
 	q := url.Values{}
+	form := url.Values{}
+	formBody := false
 
 	var cookies []string
 
@@ -457,6 +461,10 @@ func (b *Bed) Request(c Case) (client.Request, error) {
 		case st.AType == "basic_auth":
 		case !remoteTypes[st.AType]:
 		case st.Class == "none":
+			if st.Src == "body" {
+				formBody = formBody || st.Shape == "otherparam"
+			}
+
 			if st.Shape == "otherscheme" && st.Src != "authz" {
 				r.Headers = append(r.Headers, [2]string{fmt.Sprintf("X-Auth-P%d", p), "Basic dXNlcjpwdw=="})
 			}
@@ -475,6 +483,8 @@ func (b *Bed) Request(c Case) (client.Request, error) {
 				r.Headers = append(r.Headers, [2]string{fmt.Sprintf("X-Auth-P%d", p), "Bearer " + cred})
 			case st.Src == "cookie":
 				cookies = append(cookies, fmt.Sprintf("cred_p%d=%s", p, cred))
+			case st.Src == "body":
+				form.Set(fmt.Sprintf("cred_p%d", p), cred)
 			default:
 				q.Set(fmt.Sprintf("cred_p%d", p), cred)
 			}
@@ -492,6 +502,15 @@ func (b *Bed) Request(c Case) (client.Request, error) {
 	}
 
 	r.Query = q.Encode()
+
+	// credentials in the body: a form, sent with POST (steps without credentials there see a form
+	// without their parameter, or no body at all)
+	if len(form) != 0 || formBody {
+		form.Set("unrelated", "1")
+		r.Method = http.MethodPost
+		r.Body = []byte(form.Encode())
+		r.Headers = append(r.Headers, [2]string{"Content-Type", "application/x-www-form-urlencoded"})
+	}
 
 	return r, nil
 }
